@@ -93,7 +93,7 @@ def merge(results):
     agg = {'evaluations': 0, 'sigs': set(), 'samples': [], 'counters': {},
            'hists': {}, 'monitors': {}, 'violations': [],
            'violation_total': 0, 'known_hits': {}, 'known_samples': {},
-           'inconclusive': [], 'notes': []}
+           'inconclusive': [], 'notes': [], '_vkeys': set()}
     for r in results:
         agg['evaluations'] += r['evaluations']
         agg['sigs'].update(r['sigs'])
@@ -106,7 +106,10 @@ def merge(results):
             dd = agg['hists'].setdefault(name, {})
             for k, v in d.items():
                 dd[k] = dd.get(k, 0) + v
-        agg['violations'].extend(r['violations'])
+        for v in r['violations']:
+            if v.get('vkey') not in agg['_vkeys']:
+                agg['_vkeys'].add(v.get('vkey'))
+                agg['violations'].append(v)
         agg['violation_total'] += r['violation_total']
         for k, v in r['known_hits'].items():
             agg['known_hits'][k] = agg['known_hits'].get(k, 0) + v
